@@ -111,8 +111,10 @@ class Builder:
       return Var(rnd.choice(sorted(bound)))
     if r < 0.7:
       return Bin(rnd.choice(['+', '-']), self.int_expr(bound, depth + 1), self.int_expr(bound, depth + 1))
-    if r < 0.8:
+    if r < 0.77:
       return Bin('*', Num(rnd.choice([2, 3, -1])), self.int_expr(bound, depth + 1))
+    if r < 0.82:
+      return UMinus(self.int_expr(bound, depth + 1))
     if r < 0.9:
       return If(self.bool_expr(bound, depth + 1), self.int_expr(bound, depth + 1),
                 self.int_expr(bound, depth + 1))
@@ -266,6 +268,16 @@ def core_case(seed):
     x, y = Var('x'), Var('y')
     rules.append(Rule('UseFct', [x, y], body=Conj([A('Fct', x, y), A('G', y)] +
                                                   ([Cmp('==', x, Str('a'))] if rnd.random() < 0.5 else []))))
+  # table-free rules: bodies made only of single-fact (hence injected) predicates
+  if rnd.random() < 0.3:
+    c1, c2 = rnd.choice([0, 1, 5, 7]), rnd.choice([0, 2, 5, 10])
+    rules.append(Rule('Cst', [Num(c1), Num(c2)]))
+    x, y = Var('x'), Var('y')
+    cond = rnd.choice([Cmp('>', x, y), Cmp('<', x, Num(3)), Cmp('==', x, y), Cmp('!=', y, Num(c2)),
+                       BOr(Cmp('>', x, Num(6)), Cmp('<', y, Num(1)))])
+    rules.append(Rule('TF', [x, Bin('+', x, y)], body=Conj([A('Cst', x, y), cond])))
+    if rnd.random() < 0.5:
+      rules.append(Rule('TF', [y, x], body=Conj([A('Cst', x, y), Cmp(rnd.choice(['<', '>=']), x, Num(rnd.choice([1, 5, 6])))])))
   prog = Program(rules, ext=EXT)
   return Case(prog, 'core', macros=macros, K=2)
 
@@ -279,7 +291,7 @@ def agg_case(seed):
   rnd = random.Random(seed ^ 0x5a5a)
   kind = rnd.choice(['pred', 'pred', 'multibody', 'distinct', 'expr', 'expr', 'two_combines',
                      'nested', 'neg', 'neg_conj', 'impl', 'argbest', 'nullable', 'expr_head',
-                     'consumer'])
+                     'consumer', 'combine_chain', 'combine_chain'])
   x, y, z, u, v, w = [Var(n) for n in 'xyzuvw']
   rules = []
   nullable = set()
@@ -323,6 +335,13 @@ def agg_case(seed):
       ops = [rnd.choice(['Sum', 'Min', 'Max', 'Count']) for _ in range(nagg)]
       K = 3
 
+    if rnd.random() < 0.25:
+      # literal-valued keys (alone or next to a variable key)
+      lit = rnd.choice([Num(7), Str('big'), Num(0)])
+      keys = [lit] + (list(keys[:1]) if rnd.random() < 0.4 else [])
+      if rnd.random() < 0.5:
+        items = list(items) + [Cmp('>', y, Num(rnd.choice([0, 2, 100])))]
+
     def mk(items):
       if value_style:
         return Rule('P', keys, [], Agg(ops[0], es[0]), False, Conj(items))
@@ -339,6 +358,11 @@ def agg_case(seed):
       K = 3
   elif kind == 'distinct':
     items, keys = body_keys(rnd.randint(1, 2))
+    if rnd.random() < 0.25:
+      rules.append(Rule('P', [rnd.choice([Str('yes'), Num(1)])] + (keys[:1] if rnd.random() < 0.3 else []),
+                        [], None, True, Conj(items)))
+      prog = Program(rules, ext=EXT)
+      return Case(prog, 'agg', K=3 if len(items) == 1 else 2, notes='distinct_literal_key')
     rules.append(Rule('P', keys + ([Bin('+', keys[0], Num(1))] if rnd.random() < 0.3 else []),
                       [], None, True, Conj(items)))
     if rnd.random() < 0.5:
@@ -379,6 +403,30 @@ def agg_case(seed):
     a1 = AggE(op1, y, Conj([A('E', x, y)]), s1)
     a2 = AggE(op2, y, Conj([A('F', x, y)] if rnd.random() < 0.5 else [A('F', y, x)]), s2)
     rules.append(Rule('P', [x, u, v], body=Conj([A('G', x), Cmp('==', u, a1), Cmp('==', v, a2)])))
+  elif kind == 'combine_chain':
+    # three or four aggregating conjuncts with the same local variable name; later ones use
+    # the values of earlier ones inside their bodies
+    n = rnd.randint(3, 4)
+    names = [u, v, w, Var('t')][:n]
+    styles = [rnd.choice(['brace', 'combine', 'concise']) for _ in range(n)]
+    tbl = rnd.choice(['G', 'E'])
+    items = []
+    outer_is_x = rnd.random() < 0.4
+    if outer_is_x:
+      items.append(A('G', x))
+    for i in range(n):
+      op = rnd.choice(['Sum', 'Min', 'Max', 'Count'])
+      src_atom = A('G', y) if tbl == 'G' else (A('E', x, y) if outer_is_x else A('E', y, z))
+      body = [src_atom]
+      if i > 0 and rnd.random() < 0.8:
+        body.append(Cmp(rnd.choice(['>', '<', '!=', '>=']), y, names[rnd.randrange(i)]))
+      elif rnd.random() < 0.5:
+        body.append(Cmp('>', y, Num(1)))
+      cmpop = '==' if rnd.random() < 0.6 else '='
+      items.append(Cmp(cmpop, names[i], AggE(op, y, Conj(body), styles[i])))
+    if rnd.random() < 0.5:
+      rnd.shuffle(items)
+    rules.append(Rule('P', ([x] if outer_is_x else []) + names, body=Conj(items)))
   elif kind == 'nested':
     opi, opo = rnd.choice(['Sum', 'Max', 'Count']), rnd.choice(['Sum', 'Min', 'Max'])
     inner = AggE(opi, z, Conj([A('F', y, z)]), rnd.choice(['brace', 'combine']))
